@@ -17,9 +17,16 @@ import (
 type verifier struct {
 	d   *driver
 	res *childResult
+	// live != "": the verifier reads the running store (no crash) in the named phase; classes become C01/<live>/<what>
+	live string
 }
 
 func (v *verifier) violate(class string, img imgfs.Image, format string, args ...interface{}) {
+	if v.live != "" {
+		class = "C01/" + v.live + "/" + strings.TrimPrefix(class, "C01/")
+	}
+	v.d.mu.Lock()
+	defer v.d.mu.Unlock()
 	msg := fmt.Sprintf("image %d (after %q): ", img.Index, strings.ReplaceAll(img.Label, v.d.storeDir, "<store>")) + fmt.Sprintf(format, args...)
 	for _, old := range v.res.Violations {
 		if old.Class == class {
@@ -429,6 +436,7 @@ func (v *verifier) checkFamily(img imgfs.Image, name string, e *famExpect, st *f
 	}
 	maybeSeq := map[int32][]int64{}
 	visibleFlushes := e.mustFlush
+	inflightVisible := 0
 	for _, op := range e.inflight {
 		present, absent := 0, 0
 		for key, toks := range op.Tokens {
@@ -445,6 +453,7 @@ func (v *verifier) checkFamily(img imgfs.Image, name string, e *famExpect, st *f
 			v.violate("C01/in-flight-flush-partially-visible", img, "family %s: flush op %d shows %d of %d tokens; recovered %s", name, op.ID, present, present+absent, fmtContent(st.content))
 			return
 		case present > 0:
+			inflightVisible++
 			visibleFlushes++
 			for key, toks := range op.Tokens {
 				if allowed[key] == nil {
@@ -522,8 +531,21 @@ func (v *verifier) checkFamily(img imgfs.Image, name string, e *famExpect, st *f
 	} else if len(st.rollup) != 0 {
 		v.violate("C01/rollup-marks-count", img, "family %s: %d rollup marks in a store without rollup targets", name, len(st.rollup))
 	}
+	if v.live != "" {
+		v.d.mu.Lock()
+		v.res.Counters["live."+v.live+".family_states_compared"]++
+		v.d.mu.Unlock()
+		return
+	}
 	v.res.Counters["family_states_compared"]++
 	if len(e.inflight) > 0 {
 		v.res.Counters["family_states_with_inflight_flush"]++
+	}
+	if len(e.inflight) > 1 {
+		// several commits of this family were in flight at the image (a commit convoy, or two flushes of one family)
+		v.res.Counters["family_states_with_2plus_commits_in_flight"]++
+		if inflightVisible > 0 && inflightVisible < len(e.inflight) {
+			v.res.Counters["family_states_with_some_but_not_all_in_flight_commits_visible"]++
+		}
 	}
 }
